@@ -115,7 +115,7 @@ func c10MkSubnet(n *net.IPNet, label string) c10Target {
 	return c10Target{Kind: c10KSubnet, Name: "Subnet " + label, Canon: "subnet:" + p.String(), Net: n, pfx: p}
 }
 
-// The seven rule targets of the history alphabet.
+// The eight rule targets of the history alphabet.
 func c10Universe() []c10Target {
 	return []c10Target{
 		c10MkPeer("P"),
@@ -125,6 +125,7 @@ func c10Universe() []c10Target {
 		c10MkSubnet(c10Cidr("2001:db8::/32"), "2001:db8::/32"),
 		c10MkAddr(c10Addr16("1.2.3.4"), "::ffff:1.2.3.4"), // 16-byte IPv4-mapped form of the same address
 		c10MkPeer("Q"),
+		c10MkSubnet(c10Cidr("1.2.3.0/28"), "1.2.3.0/28"), // nested in 1.2.3.0/24: rules that cover one another are independent rules
 	}
 }
 
